@@ -30,6 +30,7 @@ var (
 // ResetThreads forgets all threads (start of a harness entry).
 func ResetThreads() {
 	thrs, curThr, preempts, Steps, Deadlock = nil, nil, 0, 0, false
+	YieldHook = nil
 	held = map[*sync.Mutex]bool{}
 }
 
@@ -107,8 +108,15 @@ func Yield() {
 		return
 	}
 	Steps++
+	if YieldHook != nil {
+		YieldHook()
+	}
 	coSwitch(0)
 }
+
+// YieldHook, when set, runs at every scheduling point of a thread before control goes
+// back to the scheduler (harnesses use it to kill a "process" at an arbitrary step).
+var YieldHook func()
 
 // Y is a scheduling point in expression position: it yields and returns its argument.
 func Y[T any](p T) T {
